@@ -22,7 +22,8 @@ ASSUMPTIONS = ["values: symbolic unbounded ints for a, b in [0,10] (declared bou
 KINDS = ['set with raising watcher', 'update rejected value', 'trigger with raising watcher', 'batch flush with raising watcher',
          'batch body raises', 'discard body raises', 'edit_constant body raises', 'update-context body raises',
          'constructor rejected value', 'update unknown key', 'set with raising queued watcher', 'update with raising watcher',
-         'trigger unknown name']
+         'trigger unknown name', 'update rejected value before an Event key', 'trigger a,e with raising watcher',
+         'update a,e with raising watcher']
 
 
 class Boom(Exception):
@@ -111,6 +112,17 @@ def _fault(p, arm, kind, v, pos):
             p.param.update(a=v, b=2)
         elif kind == 12:
             p.param.trigger('a', 'nope')
+        elif kind == 13:
+            if pos:
+                p.param.update(b=99, e=True)
+            else:
+                p.param.update(zz=1, e=True)
+        elif kind == 14:
+            arm['on'] = True
+            p.param.trigger('a', 'e')
+        elif kind == 15:
+            arm['on'] = True
+            p.param.update(a=v, e=True)
         return False, None
     except (Boom, ValueError, TypeError, KeyError) as ex:
         return True, type(ex).__name__
@@ -157,7 +169,7 @@ def prog(k1: int, k2: int, in_batch: bool, pr_r: int, v1: int, v2: int, pos1: bo
     n_before = len(trace)
     raised, exc = _fault(p, arm, k1, v1, pos1)
     cover('C05.kind.%s' % KINDS[k1])
-    if k1 not in (0, 2, 3, 10, 11) or not in_batch:
+    if k1 not in (0, 2, 3, 10, 11, 14, 15) or not in_batch:
         # inside a surrounding batch the watcher-raising kinds only fail at the flush
         check('C05.fault_raised', raised, dict(info, exc=exc))
     if k2 >= 0:
